@@ -27,6 +27,8 @@ func propC03(c *Ctx) propInfo {
 	c.floor("E2.R-lossyconv", 4)
 	c.guardPolarity("boc", "tlb", "wallet", "ton", "tl", "tonconnect", "liteclient", "abi")
 	c.enumTables("E12.enum-tables", "tlb", "wallet", "ton")
+	c.statelessCodecs("E17.stateless", excStateless, "boc", "tlb", "tl", "ton", "wallet", "utils", "tonconnect")
+	c.loopVarEscape("E17.loopvar-escape", "tlb", "boc", "ton", "wallet", "tl", "abi")
 	c.aliasTableMixup("E12.alias-tables", "abi", "tlb", "wallet")
 	c.writeWidthPreconditions("tlb", "wallet") // a length or count written into a fixed-width field is known to fit
 	c.cursorPairing()                          // tlb.Any decodes "the rest of the cell" through CopyRemaining
@@ -60,3 +62,5 @@ var skipPairs = map[string]string{
 
 var excBigSign = map[string]string{}
 var excCursorFree = map[string]string{}
+
+var excStateless = map[string]string{}
